@@ -139,9 +139,13 @@ def dart_alloc_rules(ck, rule, facts):
     if gf is None:
         ck.bad(rule, "js::generate_fields/arena-choice-sees-through-option", "generate_fields not found", None)
     else:
-        defs_ = dict(flow.defs_of(gf))
-        chosen = [m_ for m_ in C.walk(C.fn_body(gf)) if m_.get("k") == "match" and (m_.get("sadt") or "").endswith("hir::types::Type") and
-                  any("functionCleanupArena" in l_ for a_ in m_["arms"] for l_ in C.str_lits(a_["b"]))]
+        chosen, defs_ = [], {}
+        for h_ in C.fns_inl(tool, gf, 2):     # generate_fields or the helper it delegates the choice to
+            ms_ = [m_ for m_ in C.walk(C.fn_body(h_)) if m_.get("k") == "match" and (m_.get("sadt") or "").endswith("hir::types::Type") and
+                   any("functionCleanupArena" in l_ for a_ in m_["arms"] for l_ in C.str_lits(a_["b"]))]
+            if ms_:
+                chosen += ms_
+                defs_ = dict(flow.defs_of(h_))
         ok_js, why_js = len(chosen) == 1, "the arena-choosing match was not found (%d candidates)" % len(chosen)
         if ok_js:
             m_ = chosen[0]
